@@ -33,6 +33,14 @@ SEEDS = {
     'S-C02-1': ('C02', 'quick', ['dp_no_udp6_2_16', 'dp_no_udp6_leading_zero', 'dp_no_udp6_single_zero_byte', 'dp_no_udp6_list']),
     'S-C04-1': ('C04', 'quick', ['dp_ok_custom_empty_list', 'dp_ok_custom_nested_lists']),
     'S-C01-1': ('C01', 'thorough', ['g_k256_verify']),
+    'S-C03-1': ('C03', 'quick', ['a14_client_0', 'a14_client_1']),
+    'S-C11-1': ('C11', 'quick', ['g_combined_precedence']),
+    'S-C05-2': ('C05', 'quick', ['u_remove_insert_key_rm', 'u_remove_insert_key_ins']),
+    'S-C06-2': ('C06', 'quick', ['u_remove_insert']),
+    'S-C08-2': ('C08', 'thorough', ['u_remove_insert_same']),
+    'S-C14-2': ('C14', 'thorough', ['u_set_ip6']),
+    'S-C02-2': ('C02', 'quick', ['dp_no_duplicate_key', 'dp_no_unsorted_keys']),
+    'S-C09-2': ('C09', 'quick', ['u_remove_insert']),
     'H-F1': ('C16', 'quick', ['n_parse']),
     'H-F2': ('C06', 'quick', ['u_set_tcp4']),
     'H-F3': ('C05', 'quick', ['u_set_seq']),
